@@ -386,17 +386,38 @@ impl Lowerer {
                     })
                     .try_collect()?;
 
+                let names = columns
+                    .iter()
+                    .map(|c| c.as_single().unwrap().clone().unwrap())
+                    .collect_vec();
                 let lit = RelationLiteral {
-                    columns: columns
-                        .iter()
-                        .map(|c| c.as_single().unwrap().clone().unwrap())
-                        .collect_vec(),
+                    columns: names.clone(),
                     rows: elements
                         .into_iter()
                         .map(|row| {
-                            row.kind
-                                .into_tuple()
-                                .unwrap()
+                            let span = row.span;
+                            let mut fields = row.kind.into_tuple().unwrap();
+
+                            // a row that names its fields gives them in any order:
+                            // take them in the order of the relation's columns
+                            if fields.iter().all(|f| f.alias.is_some()) {
+                                let mut ordered = Vec::with_capacity(fields.len());
+                                for name in &names {
+                                    let Some(position) =
+                                        fields.iter().position(|f| f.alias.as_ref() == Some(name))
+                                    else {
+                                        return Err(Error::new_simple(format!(
+                                            "row of a relation literal has no field `{name}`"
+                                        ))
+                                        .with_span(span));
+                                    };
+                                    ordered.push(fields.remove(position));
+                                }
+                                ordered.append(&mut fields);
+                                fields = ordered;
+                            }
+
+                            fields
                                 .into_iter()
                                 .map(|element| {
                                     element.try_cast(
